@@ -272,8 +272,10 @@ func Generate(r *rng.R, tier string, n int, emit func(*common.Case)) {
 		cr = rng.New(sub)
 		var in Input
 		switch k := i % 20; {
+		case k < 1:
+			in = genMatrixLine(cr, i/20)
 		case k < 2:
-			in = genMatrixLine(cr, (i/20)*2+k)
+			in = genValueLine(cr, i/20)
 		case k < 8:
 			in = genStructuredLine(cr)
 		case k < 11:
